@@ -116,6 +116,8 @@ func (c *Cfg) genName(t *rapid.T, n *namer, label string, styles []string) strin
 			s = w1 + rapid.SampledFrom([]string{"ID", "URL", "HTTP", "UUID", "API"}).Draw(t, label+".init")
 		case "Initialism":
 			s = rapid.SampledFrom([]string{"ID", "URL", "HTTP", "UUID", "API"}).Draw(t, label+".init") + title(w1)
+		case "Initialism_snake":
+			s = rapid.SampledFrom([]string{"ID", "URL", "HTTP", "UUID", "API"}).Draw(t, label+".init") + "_" + w1
 		case "digit":
 			s = w1 + fmt.Sprint(rapid.IntRange(0, 99).Draw(t, label+".d"))
 		}
@@ -138,6 +140,7 @@ func (c *Cfg) genName(t *rapid.T, n *namer, label string, styles []string) strin
 
 var typeStyles = []string{"title", "pascal", "pascal", "lower", "snake", "Initialism", "digit", "camel"}
 var memberStyles = []string{"lower", "camel", "camel", "snake", "initialism", "title", "digit", "pascal"}
+var methodStyles = []string{"lower", "camel", "camel", "snake", "initialism", "title", "digit", "pascal", "Initialism", "Initialism_snake", "scream"}
 var enumValStyles = []string{"scream", "scream", "title", "lower", "pascal"}
 
 // avail is a referencable type declaration.
@@ -561,6 +564,14 @@ func (b *builder) genDecls() {
 		case "typedef":
 			d := &Decl{Kind: "typedef", Name: c.genName(t, b.names, "typedef", typeStyles), Doc: b.doc("typedef"), Ann: b.ann("typedef")}
 			d.Type = b.genType("typedef.t", 2, false, nil)
+			// the same name may be declared, with another meaning, in an included file
+			if len(b.types) > 0 && rapid.IntRange(0, 4).Draw(t, "shadow?") == 0 {
+				a := b.types[rapid.IntRange(0, len(b.types)-1).Draw(t, "shadow")]
+				if a.file != b.fi && b.names.take(a.name) {
+					d.Name = a.name
+					d.Type = &Type{Kind: "base", Name: rapid.SampledFrom([]string{"i64", "string", "bool", "double"}).Draw(t, "shadowbase")}
+				}
+			}
 			if c.hz(t, HzBaseTypePrefixName, 30) {
 				d.Name = rapid.SampledFrom([]string{"stringList", "i32Thing", "boolish", "doubleTrouble", "byteSize", "binaryBlob", "i64Key", "optionalThing", "requiredThing", "voidish"}).Draw(t, "btname")
 				if !b.names.take(d.Name) {
@@ -616,7 +627,7 @@ func (b *builder) genDecls() {
 			}
 			nm := rapid.IntRange(0, 4).Draw(t, "nmethods")
 			for j := 0; j < nm; j++ {
-				m := Method{Name: c.genName(t, mn, "method", memberStyles), Doc: b.doc("method"), Ann: b.ann("method")}
+				m := Method{Name: c.genName(t, mn, "method", methodStyles), Doc: b.doc("method"), Ann: b.ann("method")}
 				m.Args = b.genFields("arg", m.Name, rapid.IntRange(0, 4).Draw(t, "nargs"), false, true)
 				switch rapid.IntRange(0, 5).Draw(t, "mkind") {
 				case 0:
